@@ -184,7 +184,7 @@ ASSUMPTIONS = [
     "GridN/GridB::neighbors(...) overloads that only copy/cast the base list are mapped to Grid::neighbors",
 ]
 TRUSTED = ["extraction rewrite table of units/C13.py", "memory model and abstract heaps in units/C13/grid_model.h, harness code in units/C13/grid_bounded.c", "CBMC 6.11 + cadical"]
-NOT_COVERED = ["ordering of the reported components by size", "hash function quality, Eigen", "KPIECE Discretization's use of the grid",
+NOT_COVERED = ["ordering of the reported components by size", "hash function quality, Eigen", "grid owners other than geometric Discretization (addMotion, selectMotion) and control KPIECE1 (addMotion, selectMotion): removeMotion, the solve() loops that end with updateCell(), BKPIECE / LBKPIECE",
                "symmetry of the neighbour relation across arbitrary dimensions (follows from the +-1 probe rule, checked in the window)"]
 
 NATIVE = [dict(name="c13_native_random_histories", driver="native/c13_native.cpp",
